@@ -19,7 +19,7 @@ package keystore
 //@   assert-at call newPoCAddress address-of-the-asked-key: arg0 == pubKey
 //@   assert-at call HashH digest-of-the-message: arg0 == message
 //@   assert-at call getAddrManager manager-owning-that-address: arg1 == lastresult("EncodeAddress")
-//@   assert-at call signPocec signs-the-message-digest-for-that-address: arg0 == lastresult("getAddrManager") && arg2 == lastresult("EncodeAddress") && len(arg1) == 32
+//@   assert-at call signPocec signs-the-message-digest-for-that-address: arg0 == lastresult("getAddrManager") && arg2 == lastresult("EncodeAddress") && len(arg1) == 32 && (forall j int :: 0 <= j && j < 32 ==> arg1[j] == lastresult("HashH")[j])
 //@   assert-at return#-1 the-signature-obtained: result0 == lastresult("signPocec") && result1 == nil
 
 //@ func (*AddrManager).signPocec
